@@ -225,25 +225,28 @@ macro_rules! bit_ops_common {
 }
 
 macro_rules! num_ops_common {
-    ($simd:ident, $mask:ident) => {
+    // `$add`, `$sub` and `$mul` are the scalar operations. Integer types use
+    // wrapping arithmetic so that overflow behaves as it does for the native
+    // SIMD instructions of other ISAs, also in builds with overflow checks.
+    ($simd:ident, $mask:ident, $add:expr, $sub:expr, $mul:expr) => {
         #[inline]
         fn add(self, x: $simd, y: $simd) -> $simd {
-            x.map_with(y, |x, y| x + y)
+            x.map_with(y, $add)
         }
 
         #[inline]
         fn sub(self, x: $simd, y: $simd) -> $simd {
-            x.map_with(y, |x, y| x - y)
+            x.map_with(y, $sub)
         }
 
         #[inline]
         fn mul(self, x: $simd, y: $simd) -> $simd {
-            x.map_with(y, |x, y| x * y)
+            x.map_with(y, $mul)
         }
 
         #[inline]
         fn mul_add(self, a: $simd, b: $simd, c: $simd) -> $simd {
-            let xs = array::from_fn(|i| a.0[i] * b.0[i] + c.0[i]);
+            let xs = array::from_fn(|i| $add($mul(a.0[i], b.0[i]), c.0[i]));
             $simd(xs)
         }
 
@@ -329,7 +332,7 @@ unsafe impl BitOps<f32> for GenericIsa {
 }
 
 unsafe impl NumOps<f32> for GenericIsa {
-    num_ops_common!(F32x4, M32);
+    num_ops_common!(F32x4, M32, |x, y| x + y, |x, y| x - y, |x, y| x * y);
 
     // `f32::min` / `f32::max` ignore a NaN operand, whereas the default
     // `NumOps::min` / `max` (`select(x, y, le(x, y))`) and the x86 `MINPS` /
@@ -391,7 +394,13 @@ macro_rules! impl_simd_int_ops {
         }
 
         unsafe impl NumOps<$elem> for GenericIsa {
-            num_ops_common!($simd, $mask);
+            num_ops_common!(
+                $simd,
+                $mask,
+                |x: $elem, y: $elem| x.wrapping_add(y),
+                |x: $elem, y: $elem| x.wrapping_sub(y),
+                |x: $elem, y: $elem| x.wrapping_mul(y)
+            );
             int_min_max!($simd);
         }
 
@@ -416,7 +425,7 @@ macro_rules! impl_simd_signed_int_ops {
         impl SignedIntOps<$elem> for GenericIsa {
             #[inline]
             fn neg(self, x: $simd) -> $simd {
-                x.map(|x| -x)
+                x.map(|x| x.wrapping_neg())
             }
         }
     };
